@@ -188,8 +188,9 @@ def model_prefixes(cfg, ops):
             m.close_session()
         else:
             g, b, length = rf.op_blocks(op, m.cursor)
-            arr = rf.values_for(cur, core_seed(), g, b, length)
-            m.apply_write(g, b, rf.row_bytes(arr))
+            if m.check_blocks(g, b, length) is None:  # (an invalid call is refused and stores nothing)
+                arr = rf.values_for(cur, core_seed(), g, b, length)
+                m.apply_write(g, b, rf.row_bytes(arr))
         out.append(dict(m.written))
     return out, m
 
